@@ -61,7 +61,10 @@ fn run_compress(ctx: &mut Ctx, cell: u32) {
         s
     };
     let (_, data) = gen::gen_source(&spec.cfg, 8 * 1024);
-    let prior: Vec<u8> = {
+    // (an existing output is an existing output, whatever is in it: one in three is empty)
+    let prior: Vec<u8> = if gen::chance(1, 3) {
+        Vec::new()
+    } else {
         let (_, d) = gen::gen_source(&spec.cfg, 4096);
         d
     };
